@@ -856,6 +856,19 @@ Proof.
     exists [], o, r, st. cbn. rewrite Ht. auto.
 Qed.
 
+(* a persistent id is not a second way to name a global: it yields NoneType for the one id
+   "<<NoneType>>" and None for everything else, whatever object is passed *)
+Lemma persistent_load_only_nonetype : forall pid,
+  (persistent_load pid = ONoneType <-> pid = OStr NONE_TYPE_PID) /\
+  (persistent_load pid = ONoneType \/ persistent_load pid = ONone).
+Proof.
+  intro pid. unfold persistent_load. destruct pid; try (split; [split; intro H; discriminate | right; reflexivity]).
+  destruct (pystr_eqb s NONE_TYPE_PID) eqn:E.
+  - apply pystr_eqb_eq in E. subst s. split; [split; reflexivity | left; reflexivity].
+  - split; [|right; reflexivity]. split; intro H; [discriminate|].
+    inversion H; subst s. rewrite pystr_eqb_refl in E. discriminate.
+Qed.
+
 (** * C15: the main statements *)
 From Coq Require Import String.
 Local Open Scope string_scope.
